@@ -17,7 +17,7 @@ from pyvc.report import Report, env_tier_seed  # noqa: E402
 def tier_params(tier):
     if tier == "thorough":
         return dict(per_assignment=150, capacities=(1, 2, 3, None))
-    return dict(per_assignment=14, capacities=(1, None))
+    return dict(per_assignment=30, capacities=(1, None))
 
 
 # ---- kind B: static per-kernel proofs -----------------------------------------------------------
